@@ -32,7 +32,8 @@ CONSTANTS Sources,      \* source ids
           MidF,         \* source -> module id derived from its file name
           MaxObj,       \* bound on Template objects ever constructed (model bound)
           MaxEpoch,     \* bound on process restarts (model bound)
-          AllowCollect  \* whether Template objects are garbage collected in a history
+          AllowCollect, \* whether Template objects are garbage collected in a history
+          Namings       \* the ways of naming a template that occur in a history (see below)
 VARIABLES obj,    \* sequence of Template objects: [src, kind, name, alive]
           reg,    \* ModuleInfo._modules: set of [key, info]; info = index of the creating object
           disk,   \* <<source, naming>> whose module file exists in the module directory (the path is
@@ -58,28 +59,41 @@ New(s, kind, naming, name, keys, how) ==
   /\ obj' = Append(obj, [src |-> s, kind |-> kind, name |-> name, alive |-> TRUE])
   /\ reg' = {e \in reg : e.key \notin keys} \cup {[key |-> k, info |-> n] : k \in keys}
   /\ last' = [op |-> "construct", kind |-> kind, naming |-> naming, src |-> s, t |-> n, how |-> how]
-Named(s, naming, n) == IF naming = "uri" THEN ModKey(MidU[s]) ELSE IF naming = "fn" THEN ModKey(MidF[s]) ELSE MemKey(n)
+\* How a template is named.  "anon": a text without URI; "fn": a file name only; otherwise a URI, in one of three
+\* SPELLINGS that denote the same file (p: "x.html", s: "/x.html", d: "./x.html") and, for module files, one of three
+\* module locations (uri*: a module_directory; ruri*: another module_directory; curi*: a modulename_callable keyed
+\* by the file).  Template.__init__: module_id = the URI as spelled with non-word characters replaced (so the
+\* spellings have different module names), module path = module_directory + the NORMALISED URI (so the spellings
+\* share one module file).
+UriNamings == {"uri", "uri1", "uri2", "ruri", "ruri1", "ruri2", "curi", "curi1", "curi2"}
+Spell(nm) == IF nm \in {"uri", "ruri", "curi"} THEN "p" ELSE IF nm \in {"uri1", "ruri1", "curi1"} THEN "s" ELSE "d"
+Fam(nm) == IF nm \in {"uri", "uri1", "uri2"} THEN "uri" ELSE IF nm \in {"ruri", "ruri1", "ruri2"} THEN "ruri"
+           ELSE IF nm \in {"curi", "curi1", "curi2"} THEN "curi" ELSE nm
+InMemory == {"uri", "uri1", "uri2", "fn", "anon"}      \* namings of templates without module file
+OnDisk == UriNamings \cup {"fn"}
+Named(s, naming, n) == IF naming \in UriNamings THEN ModKey(MidU[s] \o <<Spell(naming)>>)
+                       ELSE IF naming = "fn" THEN ModKey(MidF[s]) ELSE MemKey(n)
 
 (* ---------------- construction paths ---------------- *)
 FromString(s, naming) ==      \* Template(text[, uri=...])
-  /\ naming \in {"uri", "anon"}
+  /\ naming \in InMemory \ {"fn"}
   /\ LET k == Named(s, naming, Len(obj) + 1) IN New(s, "string", naming, k, {k}, "compiled")
   /\ UNCHANGED <<disk, epoch>>
 FromFile(s, naming) ==        \* Template(filename=...[, uri=...]), compiled in memory
-  /\ naming \in {"uri", "fn"}
+  /\ naming \in InMemory \ {"anon"}
   /\ LET k == Named(s, naming, 0) IN New(s, "file", naming, k, {k}, "compiled")
   /\ UNCHANGED <<disk, epoch>>
 ToModuleDir(s, naming) ==     \* Template(filename=, module_directory=): no module file yet -> generate, write, import
-  /\ naming \in {"uri", "fn"} /\ <<s, naming>> \notin disk
-  /\ LET k == Named(s, naming, 0) IN New(s, "moddir", naming, k, {k, FileKey(s, naming)}, "compiled")
-  /\ disk' = disk \cup {<<s, naming>>} /\ UNCHANGED epoch
+  /\ naming \in OnDisk /\ <<s, Fam(naming)>> \notin disk
+  /\ LET k == Named(s, naming, 0) IN New(s, "moddir", naming, k, {k, FileKey(s, Fam(naming))}, "compiled")
+  /\ disk' = disk \cup {<<s, Fam(naming)>>} /\ UNCHANGED epoch
 ReloadModuleFile(s, naming) ==  \* the same call when the module file exists: imported, not regenerated
-  /\ naming \in {"uri", "fn"} /\ <<s, naming>> \in disk
-  /\ LET k == Named(s, naming, 0) IN New(s, "moddir", naming, k, {k, FileKey(s, naming)}, "modfile")
+  /\ naming \in OnDisk /\ <<s, Fam(naming)>> \in disk      \* under whichever spelling the file was written
+  /\ LET k == Named(s, naming, 0) IN New(s, "moddir", naming, k, {k, FileKey(s, Fam(naming))}, "modfile")
   /\ UNCHANGED <<disk, epoch>>
 WrapModule(s, naming) ==      \* ModuleTemplate(module imported by the caller from the module file)
-  /\ <<s, naming>> \in disk
-  /\ LET k == WrapKey(Len(obj) + 1) IN New(s, "wrap", naming, k, {k, FileKey(s, naming)}, "modfile")
+  /\ naming \in OnDisk /\ <<s, Fam(naming)>> \in disk
+  /\ LET k == WrapKey(Len(obj) + 1) IN New(s, "wrap", naming, k, {k, FileKey(s, Fam(naming))}, "modfile")
   /\ UNCHANGED <<disk, epoch>>
 
 (* ---------------- environment ---------------- *)
@@ -107,11 +121,11 @@ Code(t)   == /\ t \in Alive /\ last' = [op |-> "code", t |-> t, val |-> Info(t)]
 Defs(t)   == /\ t \in Alive /\ last' = [op |-> "defs", t |-> t, val |-> obj[t].src] /\ UNCHANGED <<obj, reg, disk, epoch>>
 
 \* (object quantifiers range over the constant 1..MaxObj so that TLC reports coverage per action)
-Next == \/ \E s \in Sources, nm \in {"uri", "anon"} : FromString(s, nm)
-        \/ \E s \in Sources, nm \in {"uri", "fn"} : FromFile(s, nm)
-        \/ \E s \in Sources, nm \in {"uri", "fn"} : ToModuleDir(s, nm)
-        \/ \E s \in Sources, nm \in {"uri", "fn"} : ReloadModuleFile(s, nm)
-        \/ \E s \in Sources, nm \in {"uri", "fn"} : WrapModule(s, nm)
+Next == \/ \E s \in Sources, nm \in Namings : FromString(s, nm)
+        \/ \E s \in Sources, nm \in Namings : FromFile(s, nm)
+        \/ \E s \in Sources, nm \in Namings : ToModuleDir(s, nm)
+        \/ \E s \in Sources, nm \in Namings : ReloadModuleFile(s, nm)
+        \/ \E s \in Sources, nm \in Namings : WrapModule(s, nm)
         \/ \E t \in 1..MaxObj : Collect(t)
         \/ \E t \in 1..MaxObj : Source(t)
         \/ \E t \in 1..MaxObj : Code(t)
@@ -126,6 +140,6 @@ OwnSource == last.op = "source" => last.val = obj[last.t].src
 OwnCode   == last.op = "code" => last.val = obj[last.t].src
 DefsAgree == last.op = "defs" => last.val = obj[last.t].src
 \* a module file is generated once and found by every later construction, in this and in later processes
-ModuleFileReused == (last.op = "construct" /\ last.kind \in {"moddir", "wrap"}) => <<last.src, last.naming>> \in disk
+ModuleFileReused == (last.op = "construct" /\ last.kind \in {"moddir", "wrap"}) => <<last.src, Fam(last.naming)>> \in disk
 RegistryWeak == \A e \in reg : e.info \in Alive
 =============================================================================
